@@ -8,7 +8,7 @@
                                                                (C06 parser model driven by the C07
                                                                scanner model)
     len(parseErrs) > 0: Response{Errors: syntax errors}        [PSyntax]
-    validator.ValidateDocument(parsed, schema, features)       [ValidatorModel.validate_model
+    validator.ValidateDocument(parsed, schema, features)       [ValidatorModel.validate_model_memo
                                                                repaired id_order] (C04) on
                                                                [Convert.vld_of_syn]
     len(validationErrs) > 0: Response{Errors: ...}             [PInvalid]
@@ -65,7 +65,7 @@ Inductive front_result :=
 (** [pi]: the order in which Go's [range] visits the entries of the validator's maps (any
     permutation; the theorems quantify over it, the check runs [id_order]) *)
 Definition validate_doc (pi : Vld.ValidatorModel.order) (VS : Vld.Ast.schema) (F : Vld.Ast.features) (d : Syn.Ast.document) : Vld.Ast.outcome :=
-  Vld.ValidatorModel.validate_model Vld.ValidatorModel.repaired pi VS F (vld_of_syn d).
+  Vld.ValidatorModel.validate_model_memo Vld.ValidatorModel.repaired pi VS F (vld_of_syn d).
 
 Definition parse_and_validate_order (pi : Vld.ValidatorModel.order) (VS : Vld.Ast.schema) (F : Vld.Ast.features) (bs : bytes) : front_result :=
   match Syn.FrontEnd.parse_document_bytes bs with
